@@ -147,6 +147,24 @@ fn harvest_one(sd_jwt: &str, fmt: Fmt, h: &mut Harvest, ctxd: &dyn Fn() -> Value
     if emb.len() != embedded.len() {
         h.problems.push(("digest-repeats-within-credential".into(), "a digest occurs twice in one credential".into(), ctxd()));
     }
+    {
+        // a decoy digest must not be derived from a salt this credential hands out
+        use sha2::Digest;
+        let n0 = h.salts.len() - parts.disclosures.len().min(h.salts.len());
+        let mut derived: HashSet<String> = HashSet::new();
+        for sa in &h.salts[n0..] {
+            derived.insert(model::digest_of(sa));
+            if let Ok(raw) = model::b64d(sa) {
+                derived.insert(model::b64e(&sha2::Sha256::digest(&raw)));
+            }
+        }
+        for d in &embedded {
+            if !mine.contains(d) && derived.contains(d) {
+                h.problems.push(("decoy-derived-from-a-salt".into(), "a decoy digest equals the hash of a salt of the same credential".into(), json!({"decoy": d, "ctx": ctxd()})));
+                break;
+            }
+        }
+    }
     for d in embedded {
         if !mine.contains(&d) {
             h.decoys.push(d);
@@ -172,6 +190,10 @@ fn claims_for(r: &mut Rng, same: bool, thread: u32, i: u64) -> Value {
     if i == 1 {
         // one credential with several hundred disclosures (pool / batch boundaries at 256, 257)
         v["wide"] = Value::Array((0..300).map(|k| json!(k)).collect());
+    }
+    if i % 5 == 4 {
+        // credentials with nothing (or one claim) to hide: all their digests are decoys
+        return if i % 2 == 0 { json!({"iss": "https://issuer.example/A", "exp": 4_000_000_000u64, "iat": 1_700_000_000u64}) } else { json!({"iss": "https://issuer.example/A", "exp": 4_000_000_000u64, "only": thread}) };
     }
     if i == 3 {
         // one object with 40 members (decoy count / pool boundaries inside one `_sd` list) and two
@@ -310,7 +332,12 @@ pub fn clock_jump_child(seed: u64, off_file: &str) {
         }));
     }
     let mut phases = vec![];
-    for off in offsets.iter() {
+    for (pi, off) in offsets.iter().enumerate() {
+        if pi + 1 == offsets.len() && seed % 4 == 1 {
+            // one child also lets its issuing threads sit idle for a few real seconds before the last
+            // phase (a generator state that is dropped / rebuilt after idle time restarts its stream)
+            std::thread::sleep(std::time::Duration::from_millis(3200));
+        }
         let _ = std::fs::write(off_file, off.to_string());
         let vnow = api::now();
         barrier.wait();
@@ -523,6 +550,38 @@ fn many_instances_leg(ctx: &Ctx, l: &mut Local, all_salts: &mut Vec<String>, all
         }
         l.add("many-instances.storm-credentials", storm);
         l.evals += storm / 10;
+    }
+    // "thread storm": more than 2^16 short-lived threads, each drawing salts once (a per-thread
+    // generator selected by a narrow thread counter repeats after 2^16 threads)
+    {
+        let total: u64 = (1 << 16) + 64;
+        let batch = 64u64;
+        let mut spawned = 0u64;
+        while spawned < total {
+            let mut hs = vec![];
+            for _ in 0..batch.min(total - spawned) {
+                let key = key.clone();
+                let u = u.clone();
+                let strat = strat.clone();
+                hs.push(std::thread::spawn(move || {
+                    let mut h = Harvest::default();
+                    let mut issuer = SDJWTIssuer::new(key, Some("HS256".to_string()));
+                    if let Outcome::Ok(s) = api::issue(&mut issuer, &u, &strat, None, false, Fmt::Compact) {
+                        harvest_one(&s, Fmt::Compact, &mut h, &|| json!({"thread_storm": true}));
+                    }
+                    let _ = api::take_counts();
+                    h
+                }));
+            }
+            spawned += hs.len() as u64;
+            for x in hs {
+                if let Ok(sh) = x.join() {
+                    h.salts.extend(sh.salts);
+                    h.decoys.extend(sh.decoys);
+                }
+            }
+        }
+        l.add("many-instances.thread-storm-threads", spawned);
     }
     let mut seen: HashSet<&String> = HashSet::new();
     for s in h.salts.iter().chain(h.decoys.iter()) {
